@@ -1506,7 +1506,10 @@ class AsType(Elemwise):
             dtypes = self.operand("dtypes")
             columns = determine_column_projection(self, parent, dependents)
             if isinstance(dtypes, dict):
-                dtypes = {key: val for key, val in dtypes.items() if key in columns}
+                # columns is a scalar label when a Series is selected; never
+                # do a substring test against it
+                keep = columns if isinstance(columns, list) else [columns]
+                dtypes = {key: val for key, val in dtypes.items() if key in keep}
                 if not dtypes:
                     return type(parent)(self.frame, *parent.operands[1:])
             if isinstance(columns, list):
